@@ -33,7 +33,7 @@ m = {
     "hooks": {
         "guard": "verif",
         "enable": "go build tag 'verif' (packages.Load with -tags verif): adds the files zz_contracts_verif.go (contract comments //@ and ghost lemma functions)",
-        "baseline_off_cmd": "cd /repo && go test -json -vet=off -count=1 -timeout 25m ./...",
+        "baseline_off_cmd": "cd /repo && GOFLAGS=-mod=mod go test -json -vet=off -count=1 -timeout 25m ./...",
         "source_commits": hook_commits,
         "add_only": True,
     },
